@@ -155,6 +155,32 @@ echo "\n";
 `},
 }
 
+// Feature fixtures: one small program per language feature / literal form, so that every emitter of
+// the generator (scalar literals, strings with every escape, types, parameters, operators,
+// destructuring, closures, statics ...) is exercised by at least one compiled-vs-interpreted pair.
+var featureFixtures = []item{
+	{ID: "ft/string-escapes", Src: "<?php\n$s = \"a\\r\\nb\\tc\\0d\\x41\\u{e9}\\\\e\\\"f\\$g\"; echo strlen($s), \":\", bin2hex($s), \"\\n\"; echo 'single \\n $x \\'q\\'', \"\\n\";\n"},
+	{ID: "ft/string-crlf-source", Src: "<?php\n$s = \"line1\r\nline2\r\n\"; echo strlen($s), bin2hex($s), \"\\n\";\n"},
+	{ID: "ft/string-backtick", Src: "<?php\n$s = \"tick ` inside\\r\\n and `two`\"; echo bin2hex($s), \"\\n\";\n"},
+	{ID: "ft/heredoc-nowdoc", Src: "<?php\n$n = 3;\n$a = <<<EOT\nhello $n {$n}\n  indented\nEOT;\n$b = <<<'EOT'\nraw $n \\n\nEOT;\necho $a, \"|\", $b, \"\\n\";\n"},
+	{ID: "ft/numbers", Src: "<?php\necho 0x1F, \",\", 0b101, \",\", 017, \",\", 1_000_000, \",\", 1.5, \",\", 1e3, \",\", -7, \",\", 9223372036854775807, \",\", 0.1 + 0.2, \"\\n\";\n"},
+	{ID: "ft/union-nullable-types", Src: "<?php\nfunction u(int|string|null $x) { return gettype($x); }\nfunction n(?int $x = null) { return $x === null ? \"null\" : \"int\"; }\nfunction f(float $x): float { return $x * 2; }\necho u(1), u(\"s\"), u(null), n(), n(3), f(1.5), \"\\n\";\ntry { echo u([1]); } catch (\\Throwable $e) { echo \"rejected\"; }\necho \"\\n\";\n"},
+	{ID: "ft/defaults-variadic-named", Src: "<?php\nfunction d($a, $b = 2, $c = \"x\", ...$rest) { return $a . $b . $c . count($rest); }\necho d(1), d(1, 3), d(1, 3, \"y\", 7, 8), \"\\n\";\nfunction byref(&$v) { $v = $v + 1; } $q = 1; byref($q); echo $q, \"\\n\";\n"},
+	{ID: "ft/operators", Src: "<?php\n$a = 7; $b = 2;\necho $a % $b, $a ** $b, $a <=> $b, $a & $b, $a | $b, $a ^ $b, $a << 1, $a >> 1, ~$a, \"\\n\";\necho ($a > $b && $b > 0) ? \"t\" : \"f\", ($a < $b || !$b) ? \"t\" : \"f\", $a ?: 9, null ?? \"dflt\", \"\\n\";\n$s = \"x\"; $s .= \"y\"; $a += 3; $a -= 1; $a *= 2; $b **= 3; echo $s, $a, $b, \"\\n\";\n$i = 5; echo $i++, $i--, ++$i, --$i, \"\\n\";\n"},
+	{ID: "ft/arrays-destructuring", Src: "<?php\n[$x, $y] = [1, 2]; list($p, list($q)) = [3, [4]]; [\"k\" => $kv] = [\"k\" => 5];\necho $x, $y, $p, $q, $kv, \"\\n\";\n$a = [1, 2, 3]; $b = [...$a, 4]; echo json_encode($b), count($b), isset($a[1]) ? \"y\" : \"n\", isset($a[9]) ? \"y\" : \"n\", \"\\n\";\nunset($a[1]); echo json_encode($a), \"\\n\";\n"},
+	{ID: "ft/loops-all", Src: "<?php\nfor ($i = 0, $j = 10; $i < 3; $i++, $j--) { echo $i, $j; } echo \"\\n\";\n$n = 0; do { $n++; } while ($n < 3); echo $n;\nforeach ([\"a\" => 1, \"b\" => 2] as $k => $v) { echo $k, $v; }\n$w = 0; while (true) { $w++; if ($w > 2) break; } echo $w, \"\\n\";\n"},
+	{ID: "ft/closures-static-bind", Src: "<?php\n$mul = 3; $f = function($x) use ($mul) { return $x * $mul; }; $g = fn($x) => $x + $mul; $h = static function() { return \"st\"; };\necho $f(2), $g(2), $h(), \"\\n\";\nfunction counter() { static $c = 0; return ++$c; } echo counter(), counter(), \"\\n\";\necho implode(\",\", array_map(fn($v) => $v * 2, [1, 2, 3])), \"\\n\";\n"},
+	{ID: "ft/interp-forms", Src: "<?php\n$n = \"w\"; $arr = [\"k\" => \"v\", 3 => \"three\"]; $o = new stdClass(); $o->p = \"prop\";\necho \"a $n b {$n}c ${n} {$arr['k']} $arr[3] {$o->p} $o->p\\n\";\n"},
+	{ID: "ft/match-ternary-null", Src: "<?php\n$v = 2; echo match(true) { $v < 2 => \"lt\", $v == 2 => \"eq\", default => \"gt\" }, \"\\n\";\n$o = null; echo $o?->x ?? \"nullsafe\", \"\\n\"; echo is_null($o ?? null) ? \"n\" : \"v\", \"\\n\";\n"},
+	{ID: "ft/consts-globals", Src: "<?php\nconst TOP = 5; define(\"DYN\", TOP * 2); echo TOP, DYN, PHP_EOL === \"\\n\" ? \"eol\" : \"x\", \"\\n\";\n$g = 1; function rg() { global $g; $g++; return $g; } echo rg(), $g, \"\\n\";\n"},
+	{ID: "ft/casts", Src: "<?php\necho (int)\"12abc\", (float)\"1.5\", (string)12, (bool)\"0\" ? \"t\" : \"f\", json_encode((array)\"s\"), \"\\n\";\n"},
+	{ID: "ft/try-nested", Src: "<?php\nfunction t($n) { try { try { if ($n) { throw new InvalidArgumentException(\"in\"); } return \"ok\"; } finally { echo \"f1\"; } } catch (RuntimeException | InvalidArgumentException $e) { return \"c:\" . $e->getMessage(); } finally { echo \"f2\"; } }\necho t(0), t(1), \"\\n\";\n"},
+	{ID: "ft/inline-html", Src: "<html>\n<?php $x = 2; ?>\n<p><?= $x ?></p>\n<?php if ($x > 1) { ?>big<?php } ?>\n</html>\n"},
+	{ID: "ft/recursion-early-return", Src: "<?php\nfunction fib($n) { if ($n < 2) return $n; return fib($n - 1) + fib($n - 2); }\necho fib(10), \"\\n\";\nfunction find($a, $t) { foreach ($a as $i => $v) { if ($v == $t) { return $i; } } return -1; } echo find([5, 6, 7], 6), find([5], 9), \"\\n\";\n"},
+	{ID: "ft/switch-strings-fallthrough", Src: "<?php\nfunction s($v) { $o = \"\"; switch ($v) { case \"a\": case \"b\": $o .= \"ab\"; case \"c\": $o .= \"c\"; break; default: $o .= \"d\"; } return $o; }\necho s(\"a\"), \"|\", s(\"c\"), \"|\", s(\"z\"), \"\\n\";\n"},
+	{ID: "ft/break-continue-levels", Src: "<?php\nfor ($i = 0; $i < 3; $i++) { for ($j = 0; $j < 3; $j++) { if ($j == 1) continue 2; if ($i == 2) break 2; echo $i, $j, \",\"; } } echo \"\\n\";\n"},
+}
+
 func programs(quick bool) []item {
 	var out []item
 	b := progen.Bounds{F1Depth: 1, Iter: 2, F2Depth: 1, F4Len: 1, F4Loops: []string{progen.LWhile}}
@@ -166,6 +192,7 @@ func programs(quick bool) []item {
 		return true
 	})
 	out = append(out, fixtures...)
+	out = append(out, featureFixtures...)
 	out = append(out, libFixtures...)
 	return out
 }
